@@ -737,6 +737,15 @@ End Oracle.
 
 Definition run_task := channel_service py_cap py_lower.
 
+(* service() reads self.will_close next to self.connected: a connection already
+   marked for closing (a send error while flushing the previous response) is not
+   executed.  In the model that is exactly the schedule in which the connected
+   test number 0 fails. *)
+Definition channel_service_wc (cap lower : str -> str) (c : cfg) (r : req) (a : app)
+           (disc : option nat) (will_close : bool) : result :=
+  channel_service cap lower c r a (if will_close then Some 0%nat else disc).
+Definition run_task_wc := channel_service_wc py_cap py_lower.
+
 (* flattened wire bytes *)
 Definition witem_bytes (w : witem) : bytes :=
   match w with WBytes b => b | WFile _ content => content end.
